@@ -14,6 +14,9 @@ namespace opensmt {
 bool GhostSMTSolver::isGhost(Lit l)
 {
     if (!theory_handler.isDeclared(var(l))) return false;
+    // A Boolean term that is an argument of an uninterpreted function is true or false whatever its clauses say:
+    // the E-graph needs its value.
+    if (theory_handler.getLogic().appearsInUF(theory_handler.varToTerm(var(l)))) return false;
     vec<CRef> &appearances = thLitToClauses[toInt(l)];
     int i;
     for (i = 0; i < appearances.size(); i++) {
